@@ -3,7 +3,7 @@
 (* Common scaffolding of every trace specification.                        *)
 (*   Rec      the recorded events: one JSON object per line of $TRACE      *)
 (*   l        position of the next event to consume                        *)
-(*   rej      the events no action of the specification allows (first 64)  *)
+(*   rej      the events no action of the specification allows (first 400)  *)
 (*   nrej     their total number                                           *)
 (* A trace specification consumes exactly one event per step; an event the *)
 (* specification's action does not allow is *recorded* (not silently       *)
@@ -20,7 +20,7 @@ N   == Len(Rec)
 Has(r, f) == f \in DOMAIN r
 
 NoteReject(rej, nrej, l, why) ==
-    [ rej  |-> IF Len(rej) < 64 THEN Append(rej, [id |-> Rec[l].id, line |-> l, why |-> why]) ELSE rej,
+    [ rej  |-> IF Len(rej) < 400 THEN Append(rej, [id |-> Rec[l].id, line |-> l, why |-> why]) ELSE rej,
       nrej |-> nrej + 1 ]
 
 Verdict(rej, nrej) == [events |-> N, nrej |-> nrej, rej |-> rej]
